@@ -1,12 +1,15 @@
+import Gen.PX1
 import SweepG
 import Lemmas.Sweep
 /-! # C13 — generic-width arithmetic: exhaustive theorems for small widths (the width is an argument of the model)
 
 For PxE2<N> and EVERY operand tuple of N-bit patterns (left-aligned in 32 bits):
 * `+`, `-`, `*`, `/` for every N in 2..=8 (all pairs), `sqrt` and `round` for every N in 2..=12 (all inputs),
-* `mul_add`, `mul_sub`, `sub_product` for every N in 3..=5 (all triples),
+* `mul_add`, `mul_sub`, `sub_product` for every N in 2..=5 (all triples),
 the generated model returns normally the exact result rounded to an N-bit es=2 posit, left-aligned (so the low 32-N bits
-are zero).  PxE1 and the larger widths are covered by the correspondence + oracle run; open defects are in known_findings.json. -/
+are zero).  For PxE1<N> (es = 1): `+`, `-`, `*`, `/` for every N in 2..=8 (all pairs) and `round` for every N in 2..=12 — these
+became theorems after the PxE1 rounding defects were repaired (known_findings.json `fixed:`); the PxE1 fused family is an open
+finding.  Larger widths are covered by the correspondence + oracle run. -/
 open Gen Sweep SweepG
 namespace C13
 
@@ -16,9 +19,9 @@ theorem px2_mul_small : widths 2 7 (px2Bin crate.pxe2.ops.PxE2.Mul.mul Spec.mul)
 theorem px2_div_small : widths 2 7 (px2Bin crate.pxe2.ops.PxE2.Div.div Spec.div) = true := by native_decide
 theorem px2_sqrt_small : widths 2 11 (px2Un crate.pxe2.math.PxE2.sqrt Spec.sqrt) = true := by native_decide
 theorem px2_round_small : widths 2 11 (px2Un crate.pxe2.math.PxE2.round (fun f a => Spec.roundI f 0 a)) = true := by native_decide
-theorem px2_mul_add_small : widths 3 3 (px2Tern crate.pxe2.math.PxE2.mul_add (fun f a b c => Spec.fma f 0 a b c)) = true := by native_decide
-theorem px2_mul_sub_small : widths 3 3 (px2Tern crate.pxe2.math.PxE2.mul_sub (fun f a b c => Spec.fma f 1 a b c)) = true := by native_decide
-theorem px2_sub_product_small : widths 3 3 (px2Tern crate.pxe2.math.PxE2.sub_product (fun f c a b => Spec.fma f 2 a b c)) = true := by native_decide
+theorem px2_mul_add_small : widths 2 4 (px2Tern crate.pxe2.math.PxE2.mul_add (fun f a b c => Spec.fma f 0 a b c)) = true := by native_decide
+theorem px2_mul_sub_small : widths 2 4 (px2Tern crate.pxe2.math.PxE2.mul_sub (fun f a b c => Spec.fma f 1 a b c)) = true := by native_decide
+theorem px2_sub_product_small : widths 2 4 (px2Tern crate.pxe2.math.PxE2.sub_product (fun f c a b => Spec.fma f 2 a b c)) = true := by native_decide
 
 /-- **C13, PxE2 add, N ≤ 8**: every pair of N-bit operands -/
 theorem px2_add (n a b : Nat) (hn : 2 ≤ n) (hn' : n < 9) (ha : a < 2 ^ n) (hb : b < 2 ^ n) :
@@ -45,9 +48,37 @@ theorem px2_round (n a : Nat) (hn : 2 ≤ n) (hn' : n < 13) (ha : a < 2 ^ n) :
     crate.pxe2.math.PxE2.round (UInt32.ofNat n) (emb n a) = .ok (emb n (Spec.roundI (Spec.px2 n) 0 a)) := by
   have := all1_imp (allRange_imp px2_round_small n hn (by omega)) a ha
   exact (isOk_iff _ _).mp this
-theorem px2_mul_add (n a b c : Nat) (hn : 3 ≤ n) (hn' : n < 6) (ha : a < 2 ^ n) (hb : b < 2 ^ n) (hc : c < 2 ^ n) :
+theorem px2_mul_add (n a b c : Nat) (hn : 2 ≤ n) (hn' : n < 6) (ha : a < 2 ^ n) (hb : b < 2 ^ n) (hc : c < 2 ^ n) :
     crate.pxe2.math.PxE2.mul_add (UInt32.ofNat n) (emb n a) (emb n b) (emb n c) = .ok (emb n (Spec.fma (Spec.px2 n) 0 a b c)) := by
   have := all3_imp (allRange_imp px2_mul_add_small n hn (by omega)) a ha b hb c hc
+  exact (isOk_iff _ _).mp this
+
+theorem px1_add_small : widths 2 7 (px1Bin crate.pxe1.ops.PxE1.Add.add Spec.add) = true := by native_decide
+theorem px1_sub_small : widths 2 7 (px1Bin crate.pxe1.ops.PxE1.Sub.sub Spec.sub) = true := by native_decide
+theorem px1_mul_small : widths 2 7 (px1Bin crate.pxe1.ops.PxE1.Mul.mul Spec.mul) = true := by native_decide
+theorem px1_div_small : widths 2 7 (px1Bin crate.pxe1.ops.PxE1.Div.div Spec.div) = true := by native_decide
+theorem px1_round_small : widths 2 11 (px1Un crate.pxe1.math.PxE1.round (fun f a => Spec.roundI f 0 a)) = true := by native_decide
+
+/-- **C13, PxE1 add, N ≤ 8**: every pair of N-bit operands -/
+theorem px1_add (n a b : Nat) (hn : 2 ≤ n) (hn' : n < 9) (ha : a < 2 ^ n) (hb : b < 2 ^ n) :
+    crate.pxe1.ops.PxE1.Add.add (UInt32.ofNat n) (emb n a) (emb n b) = .ok (emb n (Spec.add (Spec.px1 n) a b)) := by
+  have := all2_imp (allRange_imp px1_add_small n hn (by omega)) a ha b hb
+  exact (isOk_iff _ _).mp this
+theorem px1_sub (n a b : Nat) (hn : 2 ≤ n) (hn' : n < 9) (ha : a < 2 ^ n) (hb : b < 2 ^ n) :
+    crate.pxe1.ops.PxE1.Sub.sub (UInt32.ofNat n) (emb n a) (emb n b) = .ok (emb n (Spec.sub (Spec.px1 n) a b)) := by
+  have := all2_imp (allRange_imp px1_sub_small n hn (by omega)) a ha b hb
+  exact (isOk_iff _ _).mp this
+theorem px1_mul (n a b : Nat) (hn : 2 ≤ n) (hn' : n < 9) (ha : a < 2 ^ n) (hb : b < 2 ^ n) :
+    crate.pxe1.ops.PxE1.Mul.mul (UInt32.ofNat n) (emb n a) (emb n b) = .ok (emb n (Spec.mul (Spec.px1 n) a b)) := by
+  have := all2_imp (allRange_imp px1_mul_small n hn (by omega)) a ha b hb
+  exact (isOk_iff _ _).mp this
+theorem px1_div (n a b : Nat) (hn : 2 ≤ n) (hn' : n < 9) (ha : a < 2 ^ n) (hb : b < 2 ^ n) :
+    crate.pxe1.ops.PxE1.Div.div (UInt32.ofNat n) (emb n a) (emb n b) = .ok (emb n (Spec.div (Spec.px1 n) a b)) := by
+  have := all2_imp (allRange_imp px1_div_small n hn (by omega)) a ha b hb
+  exact (isOk_iff _ _).mp this
+theorem px1_round (n a : Nat) (hn : 2 ≤ n) (hn' : n < 13) (ha : a < 2 ^ n) :
+    crate.pxe1.math.PxE1.round (UInt32.ofNat n) (emb n a) = .ok (emb n (Spec.roundI (Spec.px1 n) 0 a)) := by
+  have := all1_imp (allRange_imp px1_round_small n hn (by omega)) a ha
   exact (isOk_iff _ _).mp this
 
 end C13
